@@ -213,7 +213,10 @@ where
             7 => RKind::ExclByRef,
             _ => RKind::From,
         };
-        let (start, end): (T, T) = if T::SMALL && rng.chance(1, 2) {
+        let (start, end): (T, T) = if rng.chance(1, 40) {
+            // the whole type (only a bounded number of steps from either end is ever taken)
+            (T::MINV, T::MAXV)
+        } else if T::SMALL && rng.chance(1, 2) {
             (T::from_index(rng.below(256)), T::from_index(rng.below(256)))
         } else {
             let anchors = T::anchors();
